@@ -12,8 +12,9 @@ compiled ground action to obtain the finite table compiled action -> original ac
 Solver (R on both sides, vf/refsem.py + vf/tvlib.py):
   SOUND     valid_P'(pi') and OR_{s0 in I} not valid_{P,s0}(back(pi'))  is unsat over all pi' with |pi'| <= k'
   COMPLETE  (exists pi, |pi| <= k, valid from every s0 in I)  =>  (exists pi', |pi'| <= K', valid for P')
-            K' = k + k * maxpre + goals: before each of the k actions at most `maxpre` merges (one per precondition
-            literal of a compiled action), at the end one merge per compiled goal literal
+            K' = k + (k+1) * M, M = number of internal compiled actions (merge / fake-goal / case-analysis actions, i.e. those the
+            back-conversion drops): between two original actions and after the last one each of them is needed at most once
+            (smaller bounds are tried first; sat there implies sat within K')
   BASIS     the same two queries for the twin compilation with _reduce_possible_initial_states_to_basis disabled, and
             solvable_K'(reduced) == solvable_K'(unreduced)
 """
@@ -52,7 +53,7 @@ ASSUMPTIONS = ["R (vf/refsem.py) is the documented sequential semantics (tied to
                "plan_back_conversion acts action-wise (SequentialPlan.replace_action_instances): the table is obtained by calling it "
                "on every one-step compiled plan",
                "the reduction-free twin is a subclass of Ks0Compiler overriding _reduce_possible_initial_states_to_basis with the identity",
-               "completeness bound K' = k + k*maxpre + goals (merge actions needed by the canonical compiled plan)"]
+               "completeness bound K' = k + (k+1)*M with M the number of internal (dropped by the back-conversion) compiled actions: they only add knowledge, so each is needed at most once per segment"]
 
 # ------------------------------------------------------------------------------------------------------
 # skeletons.  condition: ["a"] | ["p","x"|"y"|"o1"|"o2"] | ["not",C] | ["and",C,C] | ["or",C,C] | ["imp",C,C] |
